@@ -123,11 +123,14 @@ def systematic_inputs(ents, rng, auto, nperms, extra_defs=()):
     out = []
     pg = coregen.PayloadGen(rng, extra_defs)
     forms = [lambda f: coregen.G.unraw(f["ident"]), lambda f: coregen.camel(coregen.G.unraw(f["ident"])), lambda f: coregen.G.unraw(f["ident"]).lower(),
-             lambda f: f["rename"] if f["rename"] is not None else coregen.G.unraw(f["ident"]), lambda f: coregen.G.unraw(f["ident"]).upper()]
+             lambda f: f["rename"] if f["rename"] is not None else coregen.G.unraw(f["ident"]), lambda f: coregen.G.unraw(f["ident"]).upper(),
+             lambda f: " " + (f["rename"] if f["rename"] is not None else coregen.G.unraw(f["ident"])),            # padded: another key
+             lambda f: coregen.camel(coregen.G.unraw(f["ident"])) + " ", lambda f: coregen.G.unraw(f["ident"]).lower() + "\t"]
 
     def vforms(v):
         i = coregen.G.unraw(v["ident"])
-        return [i, coregen.camel(i), i.lower(), v["rename"] if v["rename"] is not None else i, i.upper()]
+        return [i, coregen.camel(i), i.lower(), v["rename"] if v["rename"] is not None else i, i.upper(),
+                " " + (v["rename"] if v["rename"] is not None else i), coregen.camel(i) + " ", i.lower() + " "]
 
     def fval(f):
         return pg.gen(f["from"]["ty"] if f.get("from") else f["ty"], 0.0)
